@@ -6,7 +6,9 @@ a LoadOnce that the specification flags as changing nothing must not record an L
 (LastTxnID unchanged, DBI set unchanged), a SendOnce never records one in native mode and only when it
 captured something in shadow mode; native behaviours are replayed with and without the header padding
 option.  The loop-level part (uploads only after a local change or at start-up) is the action property
-NoEchoUpload of LSLoop.tla, checked by TLC and evaluated on the real loop stepped through its yield points.
+NoEchoUpload of LSLoop.tla, checked by TLC and evaluated on the real loop stepped through its yield points;
+with storage_force_snapshot_interval set, the interval passing is an environment step (hook setting the time of the
+last own snapshot) and the loop must upload exactly once per passed interval (ForcedWhenDue, conformance of the pcs).
 """
 import proto, loopx
 
@@ -15,6 +17,8 @@ def run(c):
     proto.run_suite(c, 'C10', padding_too=True)
     # loop level: the decision to upload (LSLoop action property NoEchoUpload) on the real loop
     loopx.run_suite(c, 'C10', with_window=False)
+    # the third legitimate reason for an upload: the forced-snapshot interval (LSLoop IntervalPasses / ForcedWhenDue)
+    loopx.run_extra(c, 'C10', 'force')
     c.assumptions += ['dupsort-hack DBIs are excluded from the no-commit clause (property text)', 'creating a missing DBI is a legitimate commit']
     c.extra['rule'] = 'protocol behaviours replayed on real Syncers with LastTxnID observed around every LS step'
 
